@@ -138,7 +138,7 @@ Close Scope string_scope.
 (* non-vacuity: a refused connection under ignore_exc makes get/gets/get_many return their miss values *)
 Definition ex_cfg : cfg :=
   {| c_tcp := true; c_naddr := 1; c_nodelay := false; c_tls := false; c_keepalive := false; c_ignore_exc := true;
-     c_prefix := []; c_default_noreply := true; c_unicode := false; c_enc := EncAscii; c_serde := 0;
+     c_prefix := []; c_default_noreply := true; c_unicode := false; c_enc := EncAscii; c_serde := 0; c_orc := no_oracles 0;
      h_fetch := BaseException; h_store := BaseException; h_misc := BaseException |}.
 Definition ex_world : world (list (list Z)) := init_world [] [ONormal; ONormal; ONormal; OFail ConnectionRefusedError] [].
 Example c07_ex :
